@@ -159,6 +159,14 @@ func generate(w *World, prop string, only string) *genResult {
 				r.obls = append(r.obls, frozenDisciplineObl(w, u, sp, fz, i+1))
 			}
 		}
+		for i, tags := range u.SortDisciplines {
+			if prop != "" && !hasTag(tags, prop) {
+				continue
+			}
+			if sp := w.pkgs[u.Pkg]; sp != nil {
+				r.obls = append(r.obls, sortDisciplineObl(w, u, sp, tags, i+1))
+			}
+		}
 		for _, fd := range u.FieldDisciplines {
 			if prop != "" && !hasTag(fd.Tags, prop) {
 				continue
@@ -777,3 +785,107 @@ func envInt(name string, def int) int {
 }
 
 var startTime = time.Now()
+
+
+// sortDisciplineObl: in every function of the package, a comparison closure handed to sort.Slice or
+// sort.SliceStable that captures slices captures the slice being sorted.
+func sortDisciplineObl(w *World, u *Unit, sp *ssa.Package, tags []string, n int) *Obl {
+	var offenders []string
+	sites := 0
+	g0 := &gen{w: w, declared: map[string]bool{}}
+	isSlice := func(t types.Type) bool {
+		_, ok := t.Underlying().(*types.Slice)
+		return ok
+	}
+	// the variable (Alloc) or value a slice operand comes from
+	source := func(v ssa.Value) ssa.Value {
+		for {
+			switch x := v.(type) {
+			case *ssa.MakeInterface:
+				v = x.X
+				continue
+			case *ssa.ChangeType:
+				v = x.X
+				continue
+			case *ssa.UnOp:
+				if x.Op == token.MUL {
+					return x.X
+				}
+			}
+			return v
+		}
+	}
+	seen := map[*ssa.Function]bool{}
+	var visit func(fn *ssa.Function)
+	visit = func(fn *ssa.Function) {
+		if fn == nil || seen[fn] {
+			return
+		}
+		seen[fn] = true
+		g0.fn = fn
+		for _, b := range fn.Blocks {
+			for _, in := range b.Instrs {
+				call, ok := in.(ssa.CallInstruction)
+				if !ok {
+					continue
+				}
+				c := call.Common()
+				full, _ := g0.calleeName(c)
+				if (full != "sort.Slice" && full != "sort.SliceStable") || len(c.Args) != 2 {
+					continue
+				}
+				mc, ok := c.Args[1].(*ssa.MakeClosure)
+				if !ok {
+					continue
+				}
+				sites++
+				sorted := source(c.Args[0])
+				captured, match := 0, false
+				for _, bnd := range mc.Bindings {
+					t := bnd.Type()
+					if p, ok := t.Underlying().(*types.Pointer); ok && isSlice(p.Elem()) {
+						captured++
+						if bnd == sorted {
+							match = true
+						}
+					} else if isSlice(t) {
+						captured++
+						if bnd == sorted || source(bnd) == sorted {
+							match = true
+						}
+					}
+				}
+				if captured > 0 && !match {
+					offenders = append(offenders, fmt.Sprintf("%s: the comparison closure of the sort at %s does not index the slice that is sorted", w.keyOf(fn), w.pos(in.Pos())))
+				}
+			}
+		}
+		for _, an := range fn.AnonFuncs {
+			visit(an)
+		}
+	}
+	for _, m := range sp.Members {
+		switch x := m.(type) {
+		case *ssa.Function:
+			visit(x)
+		case *ssa.Type:
+			for _, t := range []types.Type{x.Type(), types.NewPointer(x.Type())} {
+				ms := w.prog.MethodSets.MethodSet(t)
+				for i := 0; i < ms.Len(); i++ {
+					if fn := w.prog.MethodValue(ms.At(i)); fn != nil && fn.Pkg == sp {
+						visit(fn)
+					}
+				}
+			}
+		}
+	}
+	g0.fn, g0.unit = nil, u
+	sort.Strings(offenders)
+	goal := "true"
+	clause := fmt.Sprintf("the comparison closures of the %d sort.Slice / sort.SliceStable calls of the package index the slice being sorted", sites)
+	if len(offenders) > 0 {
+		goal = "false"
+		clause += "; offenders: " + strings.Join(offenders, "; ")
+	}
+	return &Obl{Name: fmt.Sprintf("%s#sort-less-over-sorted#%d", u.PkgName, n), Func: u.PkgName, Clause: clause, Goal: goal, G: g0, Kind: "discipline", Tags: tags}
+}
